@@ -8,6 +8,8 @@ def m(path, **kw):
 RW = [
     dict(rule="R3", re=r"name\.to_string\(\)", to="str_to_string(name)", why="str::to_string shim (same characters)"),
     dict(rule="R3", re=r"vec!\[Rc::clone\(&symbol\)\]", to="vec1(Rc::clone(&symbol))", why="one-element vec! shim"),
+    dict(rule="R1", re=r"([\w\.]+) == SymbolScope::(\w+)", to=r"scope_eq(&\1, &SymbolScope::\2)", why="derived PartialEq on a field-less enum -> structural-equality shim"),
+    dict(rule="R1", re=r"([\w\.]+) != SymbolScope::(\w+)", to=r"!scope_eq(&\1, &SymbolScope::\2)", why="derived PartialEq on a field-less enum -> structural-equality shim"),
 ]
 
 UNIT = dict(
@@ -51,9 +53,12 @@ UNIT = dict(
           ensures=["forall|n: Seq<char>| #[trigger] syms_of(final(self), n) == kept(syms_of(old(self), n), depth)",
                    "final(self).outer == old(self).outer", "final(self).free_symbols == old(self).free_symbols",
                    "final(self).num_definitions == old(self).num_definitions"],
-          rewrites=[dict(rule="R3", re=r"for symbols in self\.store\.values_mut\(\) (/\*@L0@\*/)\{(/\*@LB0@\*/).*?\}(/\*@LA0@\*/)\s*self\.store\.retain\(\|_, symbols\| !symbols\.is_empty\(\)\);",
-                         to="store_prune(&mut self.store, depth);", expect=1,
-                         why="values_mut()/retain closures -> one shim stating the std meaning of the two retain statements (filter, then drop empty vectors)")]),
+          rewrites=[dict(rule="R3", re=r"for symbols in self\.store\.values_mut\(\) (/\*@L0@\*/)\{(/\*@LB0@\*/)\s*symbols\.retain\(\|s\| [^;]*?\);\s*(/\*@LE0@\*/)\}(/\*@LA0@\*/)\s*self\.store\.retain\(\|_, symbols\| !symbols\.is_empty\(\)\);",
+                         to="store_prune(&mut self.store, depth);", expect=1, strict=True,
+                         why="values_mut()/retain -> one shim stating the std meaning of the two retain statements (filter by the predicate verified below as verif_retain_pred, then drop empty vectors)")],
+          aux=[dict(re=r"symbols\.retain\(\|s\| ([^;]*?)\);",
+                    template=r"pub fn verif_retain_pred(s: &Rc<Symbol>, depth: usize) -> (r: bool)\n    ensures r == keep(&**s, depth)\n{ \1 }\n",
+                    why="the predicate closure given to Vec::retain, verified as a function against keep()")]),
         m("resolve", ret="r", requires=["chain_room(old(self))"],
           ensures=[
               # found in this table: the most recent symbol visible at `depth`, and the table is unchanged
@@ -68,7 +73,6 @@ UNIT = dict(
           decreases="*old(self)",
           rewrites=[dict(rule="R3", re=r"self\.store\.get\(name\)", to="store_get(&self.store, name)", expect=1, why="HashMap::get shim over the abstract store view"),
                     dict(rule="R5", re=r"for symbol in symbols\.iter\(\)\.rev\(\) (/\*@L0@\*/)\{(/\*@LB0@\*/)", to=r"let mut ri: usize = symbols.len(); while ri > 0 \1{ ri -= 1; let symbol = &symbols[ri]; \2", expect=1, why="iter().rev() -> index loop from the end"),
-                    dict(rule="R1", re=r"symbol\.scope == SymbolScope::Free", to="scope_eq(&symbol.scope, &SymbolScope::Free)", expect=1, why="derived PartialEq on a field-less enum -> shim"),
                     dict(rule="R9", re=r"return Some\(Rc::clone\(symbol\)\);", to="proof { lemma_lv_is(symbols@, depth, symbols@.len() as int, ri as int); } return Some(Rc::clone(symbol));", expect=1, why="proof-only lemma call")],
           loops={0: dict(invariant=["ri <= symbols@.len()", "symbols@ == syms_of(old(self), name@)", "*self == *old(self)",
                                     "forall|j: int| ri <= j < symbols@.len() ==> !visible(&*#[trigger] symbols@[j], depth)"],
